@@ -159,6 +159,7 @@ class Checker:
     def run_tree(self, rng, n, idx, tier):
         from skepticoin.blockstore import BlockStore
         world = gen.World(rng)
+        world.odd_reward_prob = rng.choice([0.0, 0.3])
         world.grow(n, rng, tx_prob=0.8, max_txs=rng.choice([1, 2, 4]))
         order = world.chain.order[1:]
         c = self.c
